@@ -98,8 +98,25 @@ func c10LatchBeforeWait(c *Ctx) {
 			if s.ext == "sync.Once.Do" {
 				has = true
 			}
+			// the once-guard of a callee protects the callee's body only: it stands for the entry when the entry does
+			// nothing else that matters (a thin wrapper), i.e. has no other call, channel operation or close of its own
 			if len(s.targets) == 1 && s.ext == "" && m.guarded[s.targets[0]] {
-				has = true
+				others := 0
+				for _, o := range f.sites {
+					if o == s {
+						continue
+					}
+					switch o.kind {
+					case "call", "send", "recv", "close":
+						if o.kind == "call" && strings.HasPrefix(o.ext, "git.sr.ht/~rockorager/vaxis/log.") {
+							continue
+						}
+						others++
+					}
+				}
+				if others == 0 {
+					has = true
+				}
 			}
 		}
 		c.check(has, "C10.m", f.name+"/shutdown entry with several callers has a once-guard", f.pos(),
